@@ -32,7 +32,18 @@ count could be mistaken for and on which absolute tolerances are invisible.  The
 around 1e-9, all >= 1024), positions and radii scaled alike; powers of two scale every distance exactly, so the
 brute-force integer tables stay the oracle, and the termination clause (every pivot answer of the seam) is evaluated
 on the scaled coordinates as well.  np.random.choice(n) with an int population is answered as numpy documents it
-(np.arange(n)).
+(np.arange(n)).  Geometry far from the origin belongs to the same deviation: FAR_UNITS translate the lattice by 2^30 / -2^44 /
+(+2^36, -2^36, 0) per axis before scaling, i.e. by at least 2^25 times its extent (class lattice_far_from_origin[_on_some_axes]),
+with coordinates, coordinate differences and pivots still exact doubles (verified on rationals for every array handed over).
+
+Ownership of the answers (subchecks C11.results.kept_answer / later_call / callers_edit, C11.forms.kept_answer): an answer is
+the answer to ITS call.  Every object returned during the enumeration of a tree is kept and compared with a copy of its content
+after all later calls on that tree; on a call alphabet of 12 calls per tree every ordered pair (c1, c2) is run as the history
+c1, caller's edit of the returned object (none / clear / append foreign indices / reverse and overwrite), c2, c1 again, the second
+and third answer judged by brute force.
+
+Scalar argument forms (subcheck C11.forms.scalar): k as numpy integers of four widths, the radius as Python int, numpy float64 /
+float32 / int64 / int32 wherever the carrier holds the value exactly (0 as an integer included).
 
 Call forms and documented defaults (subchecks C11.call.strategy_spelling, C11.call.keyword_forms, C11.defaults.omitted,
 C11.defaults.signature): every strategy name lower-case / Capitalised / UPPER (the constructor validates
@@ -44,6 +55,7 @@ of distinct trees, over all seam answers, of the positional lower-case reference
 """
 from __future__ import annotations
 import itertools, math, random as _pyrandom
+from fractions import Fraction
 from math import comb
 
 ID = "C11"
@@ -68,7 +80,16 @@ RULE = ("every multiset of <= nmax points over the lattice L^d (all sizes, dupli
         "every point set of the call families x leaf size x strategy is built with the name Capitalised and UPPER, in the "
         "keyword forms (quick: one per point set, rotating), and with strategy omitted; the queries of its first tree "
         "with an internal node are written with keywords and with k omitted; inputs of 9..12, 23 and 51 points are "
-        "built with max_leaf_size (and strategy) omitted; written signatures are compared with the pinned table")
+        "built with max_leaf_size (and strategy) omitted; written signatures are compared with the pinned table. "
+        "Far from the origin: the units of FAR_UNITS translate the lattice by >= 2^25 times its extent (all axes / some axes, "
+        "both directions) and take part in the @unit families like every other unit (quick: one near and one far unit per "
+        "point set, both rotating; thorough: every unit on every point set). Result ownership: every object returned by "
+        "query / query_radius during the enumeration of a tree is kept and compared with its copy after all later calls; on "
+        "the first tree(s) with an internal node of every queried point array (and of the 51-point and default inputs) every "
+        "ordered pair of the 12 calls {position on a stored point, middle position of the alphabet} x {k=1,n,n+1; r=0,8,inf} "
+        "is run as history c1 / caller's edit of the answer / c2 / c1 (quick: one of the 4 edits per pair, rotating with "
+        "i+j; thorough: all 4). Scalar forms: on the first tree of the three core build forms every k in 4 numpy integer "
+        "types and every radius in 5 further carriers that hold it exactly")
 ASSUMPTIONS = [
     "numpy itself is trusted (np.median is permutation invariant, np.extract keeps order); only kdtree.py's np global is proxied",
     "coordinates are restricted to the listed lattices (floats that are exact small integers; half-integers for queries), "
@@ -88,6 +109,15 @@ ASSUMPTIONS = [
     "array equals the element-wise products); quick rotates the units over the point sets instead of crossing them",
     "strategy names are case-insensitive because the constructor validates strategy.lower() (behaviour of the unchanged "
     "tree, not the docstring); only the spellings lower / Capitalised / UPPER are tried",
+    "far from the origin: offsets are +-2^30..2^44 with scales 2^0..2^-20, chosen so that every coordinate, every sum and "
+    "difference of two coordinates of one axis and every half-step query position is an exact double (checked with Fractions "
+    "on every array; a unit that fails the check is a harness error); squared coordinates are NOT exact there, which is the "
+    "point: only quantities computed from coordinate differences are promised to be exact",
+    "result ownership: 'returns exactly ...' is read as: the returned object holds the answer of its call for as long as the "
+    "caller keeps it, and the caller may do with it what he likes; identity of returned objects is not judged, only content. "
+    "Histories are bounded to 3 calls with one edit; a call that is wrong on its own takes no part in them",
+    "scalar forms: numpy integer / floating scalars and Python ints are treated as legal k / r (the unchanged library answers "
+    "all of them); carriers that cannot hold the value exactly (float32 for sqrt 2) are skipped, bool is not tried",
     "documented defaults (max_leaf_size=10, strategy='fast', k=1, which='l2') and the parameter order are pinned in "
     "DOCUMENTED from the docstrings of the unchanged tree; below 51 points 'fast' samples every point and builds the trees "
     "of 'balanced', so an omitted strategy is told from 'balanced' only on the 51-point line",
@@ -104,7 +134,10 @@ BOUNDS = {
              "d=3 L={0,8} n=2 leaf 1 (27 query points); call forms: d=1 L={0,1,2,8,20} n=2..3 and d=2 L={0,8} n=2..3, leaf "
              "1..2, 3 strategies x 2 spellings, 1 of 4 keyword forms per point set, strategy omitted (2 forms), query "
              "forms on 1 tree per point set; defaults: lines of 9,10,11,12 points, 4x3 grid, 2 values x 6, 11 copies + 1 "
-             "(all strategies), line of 23 (balanced/fast), line of 51 leaf 3 and default leaf (fast); 5 signatures",
+             "(all strategies), line of 23 (balanced/fast), line of 51 leaf 3 and default leaf (fast); 5 signatures; "
+             "result ownership: all returned objects of every queried tree kept; pair histories (144 pairs x 1 edit) on 1 tree "
+             "per queried point array, all 4 edits on the 51-point and default inputs; scalar forms: 4 k types, 5 radius "
+             "carriers on the first tree of 3 build forms per forms point set",
     "thorough": "leaf sizes 1..3; k=1..n+1; radii {0,1/2,1,sqrt2,8,inf}. d=1: L={0,1,2,8,20}, n<=6, all strategies, sorted and "
                 "reversed rows; d=2: L={0,1,8}: n<=3 all strategies sorted+reversed rows and int dtype, n=4 all strategies, "
                 "n=5 balanced/fast with 25 query points (lattice+midpoints); L={0,1,2,8}: n<=2 all strategies, n=3 "
@@ -116,10 +149,11 @@ BOUNDS = {
                 "d=1 L={0,1,2,8,20} n=1..3 all strategies, n=4 balanced/fast (11 query points), d=2 L={0,1,8} n=1..2 (25 "
                 "query points) and n=3 balanced/fast (16 query points), d=3 L={0,8} n=1..2 (27 query points of "
                 "{-1/2,7/2,8}^3), 16 build forms, leaf 1..2, 8 query forms, each of the 3 caller edits on a fresh container; "
-                "unit of length (4 units, every unit on every point set): d=1 L={0,1,2,8,20} n=2..5, d=2 L={0,1,8} n=2..3, "
+                "unit of length (7 units, 3 of them far from the origin, every unit on every point set): d=1 L={0,1,2,8,20} n=2..5, d=2 L={0,1,8} n=2..3, "
                 "L={0,1,2,8,20} n=3 build clauses, d=3 L={0,8} n=2..3; call forms: d=1 L={0,1,2,8,20} n=2..4 leaf 1..3, d=2 "
                 "L={0,1,8} n=2..3, d=3 L={0,8} n=2..3, every keyword form on every point set; defaults: additionally line of "
-                "13, grids of 11, 14, 35, 2 values x 23, and the 51-point grid and clusters",
+                "13, grids of 11, 14, 35, 2 values x 23, and the 51-point grid and clusters; result ownership: pair histories "
+                "(144 pairs x 4 edits) on 3 trees per queried point array; scalar forms as quick on the thorough forms families",
 }
 
 L5 = [0, 1, 2, 8, 20]
@@ -195,6 +229,9 @@ def _fast51(tier):
     return [dict(fam="fast51", which=w, leaf=l, symdev=(tier != "quick" and l == 3), omit=(l == 3)) for w in fams for l in leafs]
 
 
+HIST = {"quick": [1, False], "thorough": [3, True]}    # result histories: trees per point array, every edit on every pair?
+
+
 def n_multisets(m, n):
     return comb(m + n - 1, n) if (m or not n) else 0
 
@@ -211,7 +248,7 @@ def tasks(tier):
             for start in range(0, total, b):
                 t = dict(f)
                 t.pop("nmin"); t.pop("nmax"); t.pop("batch")
-                t.update(n=n, start=start, stop=min(total, start + b))
+                t.update(n=n, start=start, stop=min(total, start + b), hist=HIST[tier])
                 out.append(t)
         if i == 1:
             out += _forms_tasks(tier)
@@ -579,9 +616,10 @@ def _check_queries(rep, tree, pts2, qpoints2, tdetail, ks=None, unit=None):
     import numpy as np
     from mouette.geometry import Vec
     n = len(pts2)
-    sc, off = (unit[2], unit[3]) if unit else (1.0, 0)
+    sc, off = _unit_map(unit, pts2, qpoints2)
+    keep = _Keep()
     for q2 in qpoints2:
-        q = [sc * (c / 2 + off) for c in q2]
+        q = [sc * (c / 2 + o) for c, o in zip(q2, off)]
         qv = Vec(np.array(q, dtype=float))
         d4 = [sum((a - b) ** 2 for a, b in zip(p, q2)) for p in pts2]
         sd4 = sorted(d4)
@@ -597,6 +635,7 @@ def _check_queries(rep, tree, pts2, qpoints2, tdetail, ks=None, unit=None):
                 continue
             rep.transitions += 1
             rep.evaluations += 1
+            keep.add("KDTree.query", (q, "k", k), res)
             want = sd4[:k]
             try:
                 idx = [int(i) for i in res]
@@ -632,6 +671,7 @@ def _check_queries(rep, tree, pts2, qpoints2, tdetail, ks=None, unit=None):
                 continue
             rep.transitions += 1
             rep.evaluations += 1
+            keep.add("KDTree.query_radius", (q, "r", label), res)
             want = [i for i in range(n) if r4 is None or d4[i] <= r4]
             try:
                 got = sorted(int(i) for i in res)
@@ -654,6 +694,180 @@ def _check_queries(rep, tree, pts2, qpoints2, tdetail, ks=None, unit=None):
                       _ucls(unit, "point_on_sphere" if on_sphere else "no_point_on_sphere"),
                       dict(tdetail, query=q, r=label if not unit else "%s x %s" % (label, unit[0].split(",")[0]), radius_given=r,
                            got=got if got is not None else repr(res), want=want))
+    keep.verify(rep, unit, tdetail)
+
+
+def _unit_map(unit, pts2, qpoints2):
+    """(scale, offsets per axis) of a unit of length; (1, zeros) without one."""
+    if unit:
+        return unit[2], unit[3]
+    d = len(pts2[0]) if pts2 else (len(qpoints2[0]) if qpoints2 else 0)
+    return 1.0, [0] * d
+
+
+# ---- the answers belong to the caller: histories on the returned objects
+# "the k-nearest query returns ...", "the radius query returns ...": what was returned is the answer to ITS call and stays it
+# whatever is asked later, and what the caller does with an answer has no influence on later answers.
+#  (a) _Keep: every object returned during the enumeration of one tree (all positions x all k x all radii, in enumeration
+#      order, kNN and radius calls interleaved) is kept with a copy of its content and compared once all calls were made.
+#  (b) _check_result_histories: on a call alphabet A of one tree (2 positions x k in {1, n, n+1} + radii {0, 8, inf}) every
+#      ordered pair (c1, c2) of A x A is run as the history  a1 = c1(); caller's edit of a1; a2 = c2(); a3 = c1()  with the
+#      edits of RESULT_EDITS (keep: a1 untouched and compared with its copy afterwards); a2 and a3 are judged by brute force.
+RESULT_EDITS = ["keep", "clear", "append_foreign", "reverse_overwrite"]
+RESULT_RADII = ("0", "8", "inf")
+
+
+def _ints(res):
+    try:
+        return [int(i) for i in res]
+    except Exception:
+        return None
+
+
+class _Keep:
+    def __init__(self):
+        self.items = []
+
+    def add(self, callee, label, res):
+        snap = _ints(res)
+        if snap is not None:
+            self.items.append((callee, label, res, snap))
+
+    def verify(self, rep, unit, tdetail, sub="C11.results.kept_answer"):
+        times = {}
+        for it in self.items:
+            times[id(it[2])] = times.get(id(it[2]), 0) + 1
+        seen = set()
+        for callee, label, res, snap in self.items:
+            rep.evaluations += 1
+            now = _ints(res)
+            if now != snap and callee not in seen:
+                seen.add(callee)
+                shared = times[id(res)] > 1
+                _viol(rep, _sub(unit, sub), callee, "side_effect:earlier_answer_changed_by_later_call",
+                      _ucls(unit, "one_object_returned_by_several_calls" if shared else "distinct_result_objects"),
+                      dict(tdetail, call=list(label), answer_when_returned=snap, same_object_after_the_later_calls=now if now is not None else repr(res),
+                           later_calls="all positions x k x radii of the enumeration on this tree object, in order"))
+        rep.count("results_kept", len(self.items))
+        if len(self.items) > 1:
+            rep.flag("results:kept_verified")
+
+
+def _edit_result(res, edit, n):
+    """The caller works on the answer he was given.  True when the object was really changed."""
+    import numpy as np
+    foreign = n + 7
+    try:
+        if isinstance(res, list):
+            before = list(res)
+            if edit == "clear":
+                res.clear()
+            elif edit == "append_foreign":
+                res.append(foreign)
+                res.insert(0, -1)
+            elif edit == "reverse_overwrite":
+                res.reverse()
+                for i in range(len(res)):
+                    res[i] = foreign + i
+            return res != before
+        if isinstance(res, np.ndarray) and res.size:
+            res[...] = -1 if edit == "clear" else foreign
+            return True
+    except Exception:
+        return False
+    return False
+
+
+def _check_result_histories(rep, tree, pts2, qpoints2, tdetail, unit=None, all_edits=False):
+    import numpy as np
+    from mouette.geometry import Vec
+    n = len(pts2)
+    if not qpoints2:
+        return
+    sc, off = _unit_map(unit, pts2, qpoints2)
+    stored = set(pts2)
+    on = next((i for i, q2 in enumerate(qpoints2) if tuple(q2) in stored), 0)
+    calls = []          # (kind, callee, label, call, judge)
+    for qi in sorted({on, len(qpoints2) // 2}):
+        q2 = qpoints2[qi]
+        q = [sc * (c / 2 + o) for c, o in zip(q2, off)]
+        qv = Vec(np.array(q, dtype=float))
+        d4 = [sum((a - b) ** 2 for a, b in zip(p, q2)) for p in pts2]
+        sd4 = sorted(d4)
+        for k in sorted({1, max(n, 1), n + 1}):
+            calls.append(("knn", "KDTree.query", dict(query=q, k=k), (lambda qv=qv, k=k: tree.query(qv, k)),
+                          (lambda res, d4=d4, sd4=sd4, k=k: _judge_knn(res, d4, sd4, k, n))))
+        for label, r4 in RADII4:
+            if label in RESULT_RADII:
+                r = math.inf if r4 is None else sc * math.sqrt(r4 / 4)
+                calls.append(("radius", "KDTree.query_radius", dict(query=q, r=label, radius_given=r), (lambda qv=qv, r=r: tree.query_radius(qv, r)),
+                              (lambda res, d4=d4, r4=r4: _judge_radius(res, d4, r4, n))))
+
+    def run(c):
+        try:
+            res = c[3]()
+        except Exception as e:
+            return None, ("answers", "raises:" + type(e).__name__, dict(msg=str(e)[:200]))
+        return res, c[4](res)
+
+    fails, tried = {}, set()
+    rep.count("results_history_trees")
+    # a call that is answered wrongly on its own is the business of the query clauses: it takes no part in the histories
+    solo_bad = set()
+    for i, c in enumerate(calls):
+        rep.transitions += 1
+        if run(c)[1]:
+            solo_bad.add(i)
+            rep.count("results_first_answer_wrong")
+    for i, c1 in enumerate(calls):
+        for j, c2 in enumerate(calls):
+            if i in solo_bad or j in solo_bad:
+                continue
+            for edit in (RESULT_EDITS if all_edits else [RESULT_EDITS[(i + j) % len(RESULT_EDITS)]]):
+                a1, bad = run(c1)
+                rep.transitions += 3
+                rep.evaluations += 3
+                rep.traces += 1
+                if bad:
+                    rep.count("results_first_answer_wrong")        # reported by the query clauses
+                    continue
+                snap = _ints(a1)
+                applied = edit != "keep" and _edit_result(a1, edit, n)
+                if edit != "keep":
+                    rep.count("results_edit:%s:%s" % (edit, "applied" if applied else "nothing_to_change"))
+                tried.add((c1[0], edit))
+                rep.flag("results:pair:%s>%s" % (c1[0], c2[0]))
+                a2, bad2 = run(c2)
+                a3, bad3 = run(c1)
+                hist = dict(tdetail, first_call=c1[2], first_answer=snap, caller_then=edit, second_call=c2[2], third_call=c1[2])
+                for which, c, a, b in (("second", c2, a2, bad2), ("third", c1, a3, bad3)):
+                    if not b:
+                        continue
+                    if edit == "keep":
+                        key = ("C11.results.later_call", c[1], b[1])
+                    else:
+                        key = ("C11.results.callers_edit", c[1], "side_effect:edit_of_a_returned_answer_changes_a_later_answer"
+                               if b[1].startswith("mismatch") else b[1])
+                    f = fails.setdefault(key, dict(combos=set(), detail=dict(hist, wrong_call=which, wrong_as=b[1], **b[2])))
+                    f["combos"].add((c1[0], edit))
+                if edit == "keep" and _ints(a1) != snap:
+                    shared = a2 is a1 or a3 is a1
+                    key = ("C11.results.kept_answer", c1[1], "side_effect:earlier_answer_changed_by_later_call",
+                           "one_object_returned_by_several_calls" if shared else "distinct_result_objects")
+                    fails.setdefault(key, dict(combos=set(), detail=dict(hist, same_object_after_the_later_calls=_ints(a1))))
+    for key in sorted(fails):
+        f = fails[key]
+        if len(key) == 4:
+            cls = key[3]
+        else:
+            firsts = sorted({c[0] for c in f["combos"]})
+            edits = sorted({c[1] for c in f["combos"]})
+            t_firsts = sorted({c[0] for c in tried})
+            t_edits = sorted({c[1] for c in tried if (c[1] == "keep") == (key[0] == "C11.results.later_call")})
+            cls = "after=%s" % ("any_query" if firsts == t_firsts else "+".join(firsts))
+            if key[0] == "C11.results.callers_edit":
+                cls += ";edit=%s" % ("any" if edits == t_edits else "+".join(edits))
+        _viol(rep, _sub(unit, key[0]), key[1], key[2], _ucls(unit, cls), f["detail"])
 
 
 # ---- unit of length / origin deviation ("all finite point arrays": the answers are those of the same configuration
@@ -664,15 +878,33 @@ UNITS = {
     "2^10,-21": (10, -21),    # every coordinate negative, thousands
     "2^-30,-3": (-30, -3),    # both signs, around 1e-9 (an absolute tolerance would show)
     "2^10,+1": (10, 1),       # every coordinate >= 1024
+    # geometry far from the origin: the translation is >= 2^25 times the extent of the point set, so |p|^2, p.q and every
+    # other quantity that is not a function of coordinate DIFFERENCES loses the digits in which the points differ, while
+    # the coordinates, their differences, the squares of the differences and the pivots (means of two coordinates) stay
+    # exact doubles (checked on rationals for every array handed over).  An offset list is per axis (cycled).
+    "2^0,+2^30": (0, 2 ** 30),                        # integers around 1.07e9, spacing 1
+    "2^-20,-2^44": (-20, -2 ** 44),                   # around -1.7e7, spacing 1e-6 (map coordinates in metres, micrometres apart)
+    "2^-8,(+2^36,-2^36,0)": (-8, [2 ** 36, -2 ** 36, 0]),   # translated along some axes only, in opposite directions
 }
-UNITS_OF_TIER = {"quick": ["2^-5,+1", "2^10,-21", "2^-30,-3"], "thorough": list(UNITS)}
+FAR_UNITS = ["2^0,+2^30", "2^-20,-2^44", "2^-8,(+2^36,-2^36,0)"]
+NEAR_UNITS = [u for u in UNITS if u not in FAR_UNITS]
+UNITS_OF_TIER = {"quick": ["2^-5,+1", "2^10,-21", "2^-30,-3"] + FAR_UNITS, "thorough": list(UNITS)}
+FAR_RATIO = 2 ** 20
 
 
-def _unit(name, lat):
-    """(name, coarse class computed from the image of the lattice, scale, offset)."""
+def _unit(name, lat, d):
+    """(name, coarse class computed from the image of the lattice, scale, offsets per axis)."""
     e, o = UNITS[name]
-    img = [(x + o) * 2.0 ** e for x in lat]
-    if all(0 < v < 1 for v in img):
+    offs = [o[a % len(o)] for a in range(d)] if isinstance(o, list) else [o] * d
+    imgs = [[(x + oa) * 2.0 ** e for x in lat] for oa in offs]
+    # one step outside the lattice belongs to the query alphabet: extent of what the library sees on one axis
+    far = [min(abs(v) for v in im) >= FAR_RATIO * (max(im) - min(im) + 2 * 2.0 ** e) for im in imgs]
+    img = [v for im in imgs for v in im]
+    if all(far):
+        where = "lattice_far_from_origin"
+    elif any(far):
+        where = "lattice_far_from_origin_on_some_axes"
+    elif all(0 < v < 1 for v in img):
         where = "lattice_inside_(0,1)"
     elif all(v < 0 for v in img):
         where = "lattice<0"
@@ -682,7 +914,7 @@ def _unit(name, lat):
         where = "lattice_both_signs"
     else:
         where = "lattice>=0"
-    return (name, "unit=2^%d;%s" % (e, where), 2.0 ** e, o)
+    return (name, "unit=2^%d;%s" % (e, where), 2.0 ** e, offs)
 
 
 def _sub(unit, name):
@@ -715,9 +947,13 @@ def _run_pointset(rep, pts, d, task, qpoints2, unit=None):
     dtype = float if task["dtype"] == "float" else np.int64
     arr = np.array(pts, dtype=dtype).reshape(n, d)
     if unit:
-        arr = (np.array(pts, dtype=float).reshape(n, d) + unit[3]) * unit[2]
-        if [[(c + unit[3]) * unit[2] for c in p] for p in pts] != arr.tolist() or not np.isfinite(arr).all():
+        arr = (np.array(pts, dtype=float).reshape(n, d) + np.array(unit[3], dtype=float)) * unit[2]
+        exact = [[Fraction(c + o) * Fraction(unit[2]) for c, o in zip(p, unit[3])] for p in pts]
+        if [[Fraction(v) for v in row] for row in arr.tolist()] != exact or not np.isfinite(arr).all():
             raise SeamError("unit of length: the scaled lattice is not exact")
+        # ... and so are the sums of two coordinates (median pivots) and the half-step query positions
+        if any(Fraction(float(a) + float(b)) != Fraction(float(a)) + Fraction(float(b)) for col in arr.T.tolist() for a in col for b in col):
+            raise SeamError("unit of length: sums of two coordinates are not exact")
     pts2 = [tuple(2 * c for c in p) for p in pts]
     mult = _max_multiplicity(pts)
     trees = {}
@@ -744,7 +980,7 @@ def _run_pointset(rep, pts, d, task, qpoints2, unit=None):
             base = dict(points=[list(p) for p in pts], dtype=task["dtype"], max_leaf_size=leaf, strategy=strat)
             icls = _ucls(unit, _pivot_class(strat) + ";" + dupcls)
             if unit:
-                base.update(unit=unit[0], points_given="%r * (points %+d)" % (unit[2], unit[3]), points_given_values=arr.tolist())
+                base.update(unit=unit[0], points_given="%r * (points + %r)" % (unit[2], unit[3]), points_given_values=arr.tolist())
                 if strat == "random" and ex["splits"]:
                     rep.flag("unit:random_split:" + unit[0])
             # ---- clause: building finishes
@@ -780,6 +1016,7 @@ def _run_pointset(rep, pts, d, task, qpoints2, unit=None):
                 rep.flag("unit:internal_node:" + unit[0])
                 if qpoints2 is not None:
                     rep.flag("unit:queried:" + unit[0])
+                    rep.flag("unit_class_queried:" + unit[1].split(";")[1])
         if ninternal >= 3:
             rep.flag("tree:three_internal_nodes")
         if any(lf.points.size == 0 for lf in leaves):
@@ -788,6 +1025,13 @@ def _run_pointset(rep, pts, d, task, qpoints2, unit=None):
             rep.flag("tree:multi_point_leaf")
         if qpoints2 is not None:
             _check_queries(rep, tree, pts2, qpoints2, tdetail, unit=unit)
+    # ---- histories on the returned objects: the first trees with an internal node (in key order; any tree when there is none)
+    if qpoints2 is not None and trees:
+        hist_trees, hist_all = task.get("hist") or (1, False)
+        order = sorted(trees, key=repr)
+        order = [k for k in order if _tree_shape(trees[k][0])[1]] or order
+        for k in order[:hist_trees]:
+            _check_result_histories(rep, trees[k][0], pts2, qpoints2, trees[k][1], unit=unit, all_edits=hist_all)
     rep.count("distinct_trees", len(trees))
     return len(trees)
 
@@ -806,7 +1050,8 @@ def _run_family(task, rep):
         pts = [lattice_pts[i] for i in combo]
         rep.count(f"multisets:{task['fam']}:n={n}")
         if units:     # quick: one unit per point set, rotating with the index of the set; thorough: every unit
-            mine = units if task["all_units"] else [units[(task["start"] + off) % len(units)]]
+            groups = [[u for u in units if u not in FAR_UNITS], [u for u in units if u in FAR_UNITS]]
+            mine = units if task["all_units"] else [g[(task["start"] + off) % len(g)] for g in groups if g]
         else:
             mine = [None]
         for order in task["orders"]:
@@ -814,7 +1059,7 @@ def _run_family(task, rep):
             if order != "sorted" and p == pts:
                 continue
             for u in mine:
-                _run_pointset(rep, p, d, task, qpoints2, _unit(u, lat) if u else None)
+                _run_pointset(rep, p, d, task, qpoints2, _unit(u, lat, d) if u else None)
                 if u:
                     rep.count("unit_pointsets:" + u)
         if n >= 2 and len(rep.samples) < 2 and task["start"] % 7 == 0:
@@ -920,6 +1165,8 @@ def _run_fast51(task, rep):
         _check_partition(rep, tree, n, icls, tdetail)
         rep.case((task["which"], k))
         _check_queries(rep, tree, pts2, qs, tdetail, ks=(1, 2, 3, 10, 50, 51, 52))
+    for k in sorted(trees, key=repr)[:1]:
+        _check_result_histories(rep, trees[k][0], pts2, qs, trees[k][1], all_edits=True)
 
 
 # ------------------------------------------------------------------------------------------------
@@ -1106,6 +1353,7 @@ def _ask_all(rep, tree, n, table, qforms_of, tag):
     """Every query of the table in every listed query form.  Returns the failures as
     (callee, kind, qi, label, qform, info) and the list of (qi, qform) whose argument was modified by a call."""
     fails, touched = [], []
+    keep = _Keep()
     for qi, (q2, d4, sd4, integral) in enumerate(table):
         for qform in qforms_of(integral):
             qobj = _make_query(qform, q2)
@@ -1121,6 +1369,7 @@ def _ask_all(rep, tree, n, table, qforms_of, tag):
                 except Exception as e:
                     fails.append(("KDTree.query", "raises:" + type(e).__name__, qi, "k=%d" % k, qform, dict(msg=str(e)[:200])))
                     continue
+                keep.add("KDTree.query", ([c / 2 for c in q2], qform, "k", k), res)
                 bad = _judge_knn(res, d4, sd4, k, n)
                 if bad:
                     fails.append(("KDTree.query", bad[1], qi, "k=%d" % k, qform, bad[2]))
@@ -1133,12 +1382,82 @@ def _ask_all(rep, tree, n, table, qforms_of, tag):
                 except Exception as e:
                     fails.append(("KDTree.query_radius", "raises:" + type(e).__name__, qi, "r=" + label, qform, dict(msg=str(e)[:200])))
                     continue
+                keep.add("KDTree.query_radius", ([c / 2 for c in q2], qform, "r", label), res)
                 bad = _judge_radius(res, d4, r4, n)
                 if bad:
                     fails.append(("KDTree.query_radius", bad[1], qi, "r=" + label, qform, bad[2]))
             if _query_snapshot(qobj) != before:
                 touched.append((qi, qform))
+    keep.verify(rep, None, dict(points=tree.points.tolist(), points_dtype=str(tree.points.dtype), phase=tag), sub="C11.forms.kept_answer")
     return fails, touched
+
+
+# ---- forms of the scalar arguments: k and r are numbers, whatever type carries them.  Every k of 1..n+1 as numpy
+# integer of several widths, every radius of RADII4 in every listed carrier that holds its value EXACTLY (the integer 0,
+# 1, 8; float32 for 0, 1/2, 1, 8, inf; ...), so the brute-force table of the float call stays the expectation.
+KFORMS = ["np.int64", "np.int32", "np.uint8", "np.intp"]           # besides the Python int of every other family
+RFORMS = ["int", "np.float64", "np.float32", "np.int64", "np.int32"]              # besides the Python float
+
+
+def _scalar(form, value):
+    """`value` carried by `form`, or None when the carrier cannot hold it exactly."""
+    import numpy as np
+    if form == "int":
+        return int(value) if (value != math.inf and float(value).is_integer()) else None
+    ty = getattr(np, form.split(".")[1])
+    if np.issubdtype(ty, np.integer) and (value == math.inf or not float(value).is_integer()):
+        return None
+    with np.errstate(all="ignore"):
+        out = ty(value)
+    return out if float(out) == float(value) else None
+
+
+def _ask_scalar_forms(rep, tree, n, table, tdetail):
+    """Reference position form Vec(float64); the scalars k and r in the forms of KFORMS / RFORMS."""
+    fails, tried = {}, {"k": set(), "r": set()}
+    for qi, (q2, d4, sd4, integral) in enumerate(table):
+        qobj = _make_query("Vec:f8", q2)
+        for k in range(1, n + 2):
+            for kf in KFORMS:
+                kk = _scalar(kf, k)
+                if kk is None:
+                    continue
+                tried["k"].add(kf)
+                rep.count("forms_scalar:k:" + kf)
+                rep.transitions += 1
+                rep.evaluations += 1
+                try:
+                    bad = _judge_knn(tree.query(qobj, kk), d4, sd4, k, n)
+                except Exception as e:
+                    bad = ("answers", "raises:" + type(e).__name__, dict(msg=str(e)[:200]))
+                if bad:
+                    f = fails.setdefault(("KDTree.query", bad[1], "k"), dict(forms=set(), detail=dict(
+                        tdetail, query=[c / 2 for c in q2], k=k, k_given_as=kf, **bad[2])))
+                    f["forms"].add(kf)
+        for label, r4 in RADII4:
+            r = math.inf if r4 is None else math.sqrt(r4 / 4)
+            for rf in RFORMS:
+                rr = _scalar(rf, r)
+                if rr is None:
+                    continue
+                tried["r"].add(rf)
+                rep.count("forms_scalar:r:" + rf)
+                if r == 0:
+                    rep.count("forms_scalar:r_zero:" + rf)
+                rep.transitions += 1
+                rep.evaluations += 1
+                try:
+                    bad = _judge_radius(tree.query_radius(qobj, rr), d4, r4, n)
+                except Exception as e:
+                    bad = ("answers", "raises:" + type(e).__name__, dict(msg=str(e)[:200]))
+                if bad:
+                    f = fails.setdefault(("KDTree.query_radius", bad[1], "r"), dict(forms=set(), detail=dict(
+                        tdetail, query=[c / 2 for c in q2], r=label, r_given_as=rf, r_given=repr(rr), **bad[2])))
+                    f["forms"].add(rf)
+    for (callee, kind, arg) in sorted(fails):
+        f = fails[(callee, kind, arg)]
+        _viol(rep, "C11.forms.scalar", callee, kind, "%s=%s" % (arg, _names_class(f["forms"], tried[arg], "any_form_tried")),
+              dict(f["detail"], forms_wrong=sorted(f["forms"]), forms_tried=sorted(tried[arg])))
 
 
 def _form_attrs(form):
@@ -1234,6 +1553,8 @@ def _run_forms_pointset(rep, pts, d, task, table, set_index):
                     qforms_of = lambda integral: QFORMS_FLOAT[:1]
                 fails, touched = _ask_all(rep, tree, n, table, qforms_of, held_elem(form) + "_points")
                 fresh_ok[k] = not fails
+                if form in CORE_BFORMS and ti == 0 and not fails:
+                    _ask_scalar_forms(rep, tree, n, table, dict(tdetail, points_given_as=form))
                 groups = {}
                 for callee, kind, qi, label, qform, info in fails:
                     groups.setdefault((callee, kind, qi, label), []).append((qform, info))
@@ -1712,6 +2033,7 @@ def _run_defaults(task, rep):
         ks = sorted({1, 2, 3, DEFAULT_LEAF, DEFAULT_LEAF + 1, n - 1, n, n + 1})
         _check_partition(rep, tree, n, "any_point_set", tdetail)
         _check_queries(rep, tree, pts2, qs, tdetail, ks=ks)
+        _check_result_histories(rep, tree, pts2, qs, tdetail, all_edits=True)
         _ask_call_forms(rep, tree, pts2, qs, tdetail, ks)
         if _tree_shape(tree)[1]:
             rep.case(("defaults", task["which"], _tree_key(tree)))
@@ -1835,6 +2157,30 @@ def finish(tier, rep):
                 fails.append(f"unit of length {u}: coverage flag {fl[:-1]} missing")
         if c.get("unit_pointsets:" + u, 0) <= 0:
             fails.append(f"unit of length {u}: no point set")
+    # far from the origin: the tier holds units of that class, on all axes and on some axes only
+    for cls in ("lattice_far_from_origin", "lattice_far_from_origin_on_some_axes", "lattice_inside_(0,1)", "lattice<0", "lattice_both_signs"):
+        if "unit_class_queried:" + cls not in rep.flags:
+            fails.append(f"unit of length: no tree with an internal node was asked in a unit of class {cls}")
+    # histories on the returned objects
+    for name in ("results_kept", "results_history_trees"):
+        if c.get(name, 0) <= 0:
+            fails.append(f"counter {name} is zero: the result-ownership clauses did not run")
+    if "results:kept_verified" not in rep.flags:
+        fails.append("coverage flag missing: results:kept_verified")
+    for a in ("knn", "radius"):
+        for b in ("knn", "radius"):
+            if f"results:pair:{a}>{b}" not in rep.flags:
+                fails.append(f"result histories: no pair {a} then {b}")
+    for edit in RESULT_EDITS[1:]:
+        if c.get(f"results_edit:{edit}:applied", 0) <= 0:
+            fails.append(f"result histories: the caller's edit '{edit}' never changed a returned answer")
+    # scalar argument forms
+    for kf in KFORMS:
+        if c.get("forms_scalar:k:" + kf, 0) <= 0:
+            fails.append(f"k never given as {kf}")
+    for rf in RFORMS:
+        if c.get("forms_scalar:r:" + rf, 0) <= 0 or c.get("forms_scalar:r_zero:" + rf, 0) <= 0:
+            fails.append(f"radius (and radius 0) never given as {rf}")
     # call forms and documented defaults: every entry of the tables was exercised
     for f in _call_families(tier):
         m = len(f["lat"]) ** f["d"]
